@@ -112,6 +112,153 @@ class Ctx:
         if not cond:
             raise AnalysisError(msg)
 
+    # -------------------------------------------------------------- parallel sections
+    def parallel(self):
+        """``with ctx.parallel():`` — guarded obligations whose thunks are self-contained (build their own environment) are queued
+        and then evaluated by forked worker processes; their records are merged in queue order. Sequential when disabled
+        (VERIF_JOBS=1, mutation self-test children)."""
+        return _ParallelSection(self)
+
+
+class _Delta:
+    """Picklable record of what one obligation added to a Ctx."""
+
+    FIELDS = ("obligations", "discharged")
+
+    def __init__(self):
+        self.calls: List[Any] = []  # ("ob", args) / ("report", Finding) / ("fn", key) / ("note", str)
+
+
+class _ParallelSection:
+    def __init__(self, ctx: "Ctx"):
+        self.ctx = ctx
+        self.queue: List[Any] = []
+
+    def __enter__(self):
+        jobs = int(os.environ.get("VERIF_JOBS", "0") or 0) or min(16, os.cpu_count() or 1)
+        if jobs > 1 and getattr(self.ctx, "stop_when", None) is None and getattr(self.ctx, "_par", None) is None:
+            self.ctx._par = self
+            self.jobs = jobs
+        else:
+            self.jobs = 1
+        return self
+
+    def defer(self, fn) -> None:
+        self.queue.append(fn)
+
+    def __exit__(self, et, ev, tb):
+        if self.jobs == 1:
+            return False
+        ctx = self.ctx
+        ctx._par = None
+        if et is not None:
+            return False
+        import pickle
+        n = len(self.queue)
+        if n == 0:
+            return False
+        jobs = min(self.jobs, n)
+        kids = []
+        for w in range(jobs):
+            r, wfd = os.pipe()
+            pid = os.fork()
+            if pid == 0:
+                os.close(r)
+                code = 0
+                try:
+                    out = []
+                    for k in range(w, n, jobs):
+                        rec = _Recorder(ctx)
+                        try:
+                            with rec:
+                                self.queue[k]()
+                            out.append((k, rec.calls, None))
+                        except AnalysisError as e:
+                            out.append((k, rec.calls, ("AnalysisError", str(e))))
+                        except BaseException as e:  # internal error: reported by the parent as such
+                            import traceback
+                            out.append((k, rec.calls, ("internal", f"{type(e).__name__}: {e}\n{traceback.format_exc()[-1500:]}")))
+                    with os.fdopen(wfd, "wb") as f:
+                        pickle.dump(out, f)
+                except BaseException:
+                    code = 3
+                finally:
+                    os._exit(code)
+            os.close(wfd)
+            kids.append((pid, r))
+        results = {}
+        broken = None
+        for pid, r in kids:
+            with os.fdopen(r, "rb") as f:
+                data = f.read()
+            _, status = os.waitpid(pid, 0)
+            if status != 0 or not data:
+                broken = f"worker {pid} exited with status {status}"
+                continue
+            for k, calls, err in pickle.loads(data):
+                results[k] = (calls, err)
+        if broken:
+            raise AnalysisError(f"parallel section: {broken}")
+        for k in range(n):
+            calls, err = results[k]
+            for kind, args in calls:
+                if kind == "ob":
+                    ctx.ob(*args)
+                elif kind == "report":
+                    f = args
+                    if all(x.key != f.key for x in ctx.findings):
+                        ctx.findings.append(f)
+                elif kind == "fn":
+                    ctx.functions_analysed.add(args)
+                elif kind == "note":
+                    if args not in ctx.notes:
+                        ctx.notes.append(args)
+            if err is not None:
+                if err[0] == "AnalysisError":
+                    raise AnalysisError(err[1])
+                raise RuntimeError(err[1])
+        return False
+
+
+class _Recorder:
+    """Inside a worker: route ctx.ob / ctx.report / ctx.fn / notes of one obligation into a picklable list."""
+
+    def __init__(self, ctx: "Ctx"):
+        self.ctx = ctx
+        self.calls: List[Any] = []
+
+    def __enter__(self):
+        ctx = self.ctx
+        self._saved = (ctx.__dict__.get("ob"), ctx.__dict__.get("report"), ctx.__dict__.get("fn"))
+        self._notes0 = len(ctx.notes)
+
+        def ob(rule, instance, ok, sample=None, nontrivial=True):
+            self.calls.append(("ob", (rule, instance, ok, sample, nontrivial)))
+            return ok
+
+        def report(rule, fi, construct, message, node=None, where=None, **detail):
+            if fi is not None:
+                w, file, line = fi.key, fi.module.relpath, getattr(node, "lineno", fi.node.lineno)
+            else:
+                w, file, line = where or "?", detail.pop("file", ""), getattr(node, "lineno", 0)
+            f = Finding(ctx.prop, rule, w, construct, message, file, line, detail)
+            self.calls.append(("report", f))
+            return f
+
+        def fn(fi):
+            self.calls.append(("fn", fi.key))
+        ctx.ob, ctx.report, ctx.fn = ob, report, fn
+        return self
+
+    def __exit__(self, *a):
+        ctx = self.ctx
+        for name in ("ob", "report", "fn"):
+            ctx.__dict__.pop(name, None)
+        for t in ctx.notes[self._notes0:]:
+            self.calls.append(("note", t))
+        del ctx.notes[self._notes0:]
+        return False
+
 
 def load_known() -> Dict[str, Any]:
     if not os.path.exists(KNOWN_FILE):
